@@ -73,7 +73,14 @@ func (d *Dir) Write(files map[string][]byte) error {
 		return err
 	}
 
-	if err := os.Symlink(newDir, d.target+".new"); err != nil {
+	// A relative link is resolved against the directory holding the link, which
+	// is d.base already.
+	linkTo := newDir
+	if !filepath.IsAbs(linkTo) {
+		linkTo = filepath.Base(newDir)
+	}
+
+	if err := os.Symlink(linkTo, d.target+".new"); err != nil {
 		return err
 	}
 
